@@ -198,7 +198,14 @@ def main():
     H("c13_rate_spellings", "fee rates in spellings only some parsers accept").env().inst(afr="2.5e-3", afa="feea") \
         .inst(bfr="1E-2", bfa="feeb").inst(afr="1e0", afa="feea").inst(afr=".5", afa="feea").inst(afr="5.", afa="feea") \
         .inst(afr="0.5_", afa="feea").inst(afr="0_5", afa="feea").inst(afr="+.5", afa="feea").inst(afr="0.01", afa="feea") \
-        .modify("exec", afr="1e-2", afa="feea").modify("exec", bfr="2.5E-3", bfa="feeb").write()
+        .modify("exec", afr="1e-2", afa="feea").modify("exec", bfr="2.5E-3", bfa="feeb") \
+        .inst(afr="0.02 ", afa="feea").inst(bfr=" 0.02", bfa="feeb").inst(afr="\t0.01", afa="feea").inst(afr="0.0 1", afa="feea").write()
+    H("c12_rate_with_empty_account", "a fee rate supplied with an empty account while orders are open").env() \
+        .inst(afr="0.01", afa="feea", bfr="0.01", bfa="feeb") \
+        .create_ask("seller", [(5, "base")], A1, "base", "q", "2", 5).create_bid("buyer", [(10, "q")], B1, None, "2", "q", 10, 5) \
+        .modify("exec", afr="0.01", afa="").modify("exec", afr="0.010", afa="").modify("exec", bfr="0.01", bfa="") \
+        .modify("exec", afr="0.5", afa="").modify("exec", afr="", afa="feea").modify("exec", afr=" 0.01", afa="feea") \
+        .query("get_contract_info").match("exec", A1, B1, "2", 5).write()
     H("c00_before_instantiation", "every kind of request before the contract is instantiated").env() \
         .create_ask("seller", [(5, "base")], A1, "base", "q", "2", 5).create_bid("buyer", [(10, "q")], B1, None, "2", "q", 10, 5) \
         .approve("appr", [(5, "base")], A1, "base", 5).rev("cancel_ask", "seller", A1).rev("expire_bid", "exec", B1) \
